@@ -135,6 +135,9 @@ func setupProfile(e *Env, o core.RunOpts) error {
 	case "C01":
 		return setupOracle(e, o)
 	case "C03", "C05", "C10":
+		if o.Prop == "C05" && e.Ch.Bool("cfg.c05.tunnel", 200) {
+			return setupTunnel(e, o) // nonces consumed by tunnel packets (and their failed creations)
+		}
 		if o.Prop != "C03" && e.Ch.Bool("cfg.tss.withtransition", 250) {
 			return setupTransition(e, o)
 		}
@@ -334,6 +337,9 @@ func setupTSS(e *Env, o core.RunOpts) error {
 	e.Actors = append(e.Actors,
 		&TSSActor{Pool: pool, ByzP: e.Ch.Intn("cfg.tss.byz", 500), ReactP: 100 + e.Ch.Intn("cfg.tss.react", 400), OverDEP: e.Ch.Intn("cfg.tss.overde", 120)},
 		&SigRequester{Rate: 200 + e.Ch.Intn("cfg.sigreq.rate", 600), MaxOpen: 1 + e.Ch.Intn("cfg.sigreq.maxopen", 5), Senders: w.Users[size:], LimitW: []int{70, 10, 10, 10}, RollbackP: 80})
+	if o.Prop == "C05" && e.Ch.Bool("cfg.tss.assignfaults", 400) {
+		e.Actors = append(e.Actors, &AssignFaults{Rate: 60 + e.Ch.Intn("cfg.tss.assignfaults.rate", 200)})
+	}
 	if withOracle {
 		e.Actors = append(e.Actors, &OracleActor{MaxOpen: 3, ReqRate: 400, Scripts: []int{scriptEcho, scriptSimple}, NumDS: 2, ActivateP: 1000, ReactivateP: 300,
 			TSSEncoder: true, Requesters: w.Users[size:], FeeLimit: sdk.NewCoins(sdk.NewInt64Coin("uband", 1000), sdk.NewInt64Coin("uusd", 1000))})
@@ -417,6 +423,9 @@ func setupTransition(e *Env, o core.RunOpts) error {
 		&TSSActor{Pool: pool, ByzP: e.Ch.Intn("cfg.tss.byz", 150), ReactP: 300, OverDEP: 0, HoldStaleP: []int{0, 300, 700}[e.Ch.Intn("cfg.tss.holdstale", 3)]},
 		&SigRequester{Rate: 100 + e.Ch.Intn("cfg.sigreq.rate", 400), MaxOpen: 1 + e.Ch.Intn("cfg.sigreq.maxopen", 4), Senders: w.Users[poolSize:], LimitW: []int{85, 5, 5, 5}, RollbackP: 30})
 	e.Monitors = append(e.Monitors, &C04{}, &C18{}, &C05{}, &C03{}, &C10{}, &C09{WithTSS: true}, &C13{WithTSS: true}, &C11{})
+	if o.Prop == "C05" && e.Ch.Bool("cfg.tss.assignfaults", 400) {
+		e.Actors = append(e.Actors, &AssignFaults{Rate: 60 + e.Ch.Intn("cfg.tss.assignfaults.rate", 200)})
+	}
 	if eco {
 		// fees flow into the pool and part of them is paid to the current group's members: the fee ledgers of the other
 		// properties' models do not expect that income, so these runs are judged by C14's monitor alone
@@ -638,6 +647,9 @@ func setupTunnel(e *Env, o core.RunOpts) error {
 		gov := &GovActor{}
 		e.Shared["gov"] = gov
 		e.Actors = append(e.Actors, gov, &TunnelParamChurn{Rate: 10 + e.Ch.Intn("cfg.tunnel.churnrate", 30)})
+	}
+	if o.Prop == "C05" {
+		e.Actors = append(e.Actors, &AssignFaults{Rate: 100 + e.Ch.Intn("cfg.tss.assignfaults.rate", 250)})
 	}
 	if (o.Prop == "C08" || o.Prop == "C17") && e.Ch.Bool("cfg.tunnel.blackout", 300) {
 		gov := getGov(e)
